@@ -32,6 +32,7 @@ def main():
     ap.add_argument('--timeout', type=int, default=20000)
     ap.add_argument('--max-paths', type=int, default=200000)
     ap.add_argument('--override', action='append', default=[])
+    ap.add_argument('--resolve-selects', action='store_true')
     a = ap.parse_args()
     scratch = build.make_scratch('dev')
     try:
@@ -42,7 +43,7 @@ def main():
         t2 = time.time()
         fixed = dict(f.split('=') for f in a.fix)
         E = irs.Engine(mod, dict(query_timeout_ms=a.timeout, fixed=fixed, max_paths=a.max_paths, max_loop=20000,
-                                 overrides=dict(o.split('=') for o in a.override)))
+                                 overrides=dict(o.split('=') for o in a.override), resolve_selects=a.resolve_selects))
         res = E.run('h_main')
         t3 = time.time()
         print('build %.1fs parse %.1fs run %.1fs  | unit %s' % (t1 - t0, t2 - t1, t3 - t2, unit))
